@@ -34,7 +34,9 @@ def norm(psi: MPS):
     """
     Compute the standard L2 norm of a matrix product state.
     """
-    return np.sqrt(vdot(psi, psi).real)
+    # rounding can render <psi|psi> slightly negative for a state which is numerically zero
+    # (e.g., the difference of two almost equal states): clip at zero instead of returning NaN
+    return np.sqrt(max(vdot(psi, psi).real, 0))
 
 
 def contraction_step_right(A: np.ndarray, B: np.ndarray, R: np.ndarray):
